@@ -199,14 +199,16 @@ def gen_item(job):
     """All generator runs of one grammar item (runs in a worker process)."""
     gen, genbin, gdir, mod, scdir, rots, e = job
 
-    def gen_once(e, r, target):
+    def gen_once(e, r, target, with_pkgroot=False):
         os.makedirs(target, exist_ok=True)
         for rel in e.get("Files") or []:
-            p = os.path.join(target, rel)
+            p = os.path.join(target, e["PkgRoot"], rel) if with_pkgroot else os.path.join(target, rel)
             os.makedirs(os.path.dirname(p), exist_ok=True)
             shutil.copy(os.path.join(gdir, e["Dir"], "files", rel), p)
         env = D.goenv()
         env["VERIF_MAPROT"] = str(r)
+        if with_pkgroot:
+            env["VERIF_GEN_WITH_PKGROOT"] = "1"
         args = [genbin, os.path.join(gdir, e["Dir"], "manifest.json"), target] + ([e["PkgRoot"]] if gen == "root" else [])
         try:
             p = subprocess.run(args, cwd=gdir, env=env, stdout=subprocess.PIPE, stderr=subprocess.STDOUT, text=True, timeout=600)
@@ -224,7 +226,12 @@ def gen_item(job):
         return res
     h0, n0 = tree_hash(target0)
     res["files"] = n0
-    custom = {rel: open(os.path.join(target0, rel), "rb").read() for rel in e.get("Files") or []}
+    custom = {rel: open(os.path.join(gdir, e["Dir"], "files", rel), "rb").read() for rel in e.get("Files") or []}
+    for rel, content in custom.items():
+        if not os.path.exists(os.path.join(target0, rel)) or open(os.path.join(target0, rel), "rb").read() != content:
+            res["fails"].append(("regenerate", "hand-written file %s was modified or removed by generation" % rel))
+    if res["fails"]:
+        return res
     for r in rots[1:]:
         t = os.path.join(scdir, "rot-%s-%s-%d" % (gen, e["Dir"], r))
         rc, out = gen_once(e, r, t)
@@ -250,27 +257,44 @@ def gen_item(job):
         for rel, content in custom.items():
             if not os.path.exists(os.path.join(target0, rel)) or open(os.path.join(target0, rel), "rb").read() != content:
                 res["fails"].append(("regenerate", "hand-written file %s was modified or removed by regeneration" % rel))
+    # v2: the package-root layout must hold the same tree below <outdir>/<packageRoot>
+    if gen == "v2" and not res["fails"]:
+        t = os.path.join(scdir, "pkgroot-%s-%s" % (gen, e["Dir"]))
+        rc, out = gen_once(e, rots[0], t, with_pkgroot=True)
+        res["runs"] += 1
+        res["pkgroot"] = True
+        if rc != 0:
+            res["fails"].append(("package-root-layout", "generating with the package-root layout exits %d: %s" % (rc, norm_gen_msg(out))))
+        else:
+            sub = os.path.join(t, e["PkgRoot"])
+            hp, np_ = tree_hash(sub) if os.path.isdir(sub) else ("", 0)
+            if hp != h0:
+                res["fails"].append(("package-root-layout", "the tree generated below <outdir>/<packageRoot> differs from the flat one: %s" % (first_diff(target0, sub) if os.path.isdir(sub) else "directory missing")))
+        rmtree(t)
     return res
 
 
-def run_part_a(sc, tier, gens, only=None, t_deadline=None):
+def run_part_a(sc, tier, gens, only=None, t_deadline=None, select=None, rots=None, universes=True):
     subs, failures, samples, notes = {}, [], [], []
     capped = []
     emit = D.build_emit(sc)
     ov = maprot_overlay(sc)
-    rots = list(range(64)) if tier == "thorough" else list(range(8))
+    if rots is None:
+        rots = list(range(64)) if tier == "thorough" else list(range(8))
     for gen in gens:
         gmod = D.make_module(sc, gen, "genmain")
         genbin = D.go_build(gmod, os.path.join(sc.dir, "genbin-rot-" + gen), overlay=ov, tags="verifgen")
         gdir = os.path.join(sc.dir, "grammar-" + gen)
         D.run([emit, "-grammar", tier, "-gen", gen, "-pkgroot", "verifharness/g", "-outdir", gdir], timeout=300)
         index = json.load(open(os.path.join(gdir, "index.json")))
-        for i, uni in enumerate(BIG_UNIVERSES[tier]):
+        for i, uni in enumerate(BIG_UNIVERSES[tier] if universes else []):
             d = "i9%03d_%s" % (i, re.sub(r"[^a-z0-9]+", "_", uni))
             os.makedirs(os.path.join(gdir, d))
             D.run([emit, "-universe", uni, "-gen", gen, "-pkgroot", "verifharness/g/" + d, "-manifest", os.path.join(gdir, d, "manifest.json")], timeout=300)
             index.append({"ID": "universe-" + uni, "Family": "universe", "Desc": "the schema universe %s of the codec / wire checks" % uni, "Dir": d,
                           "PkgRoot": "verifharness/g/" + d, "Files": []})
+        if select:
+            index = [e for e in index if select(e)]
         if only:
             index = [e for e in index if e["ID"] == only]
             if not index:
@@ -284,8 +308,11 @@ def run_part_a(sc, tier, gens, only=None, t_deadline=None):
         sg = Sub("every grammar item (families field / param / key / methods / nest / ns, see mc/schema/grammar.go) and the big universes; the generator must exit 0")
         sd = Sub("every item generated in %d fresh processes, one per map-iteration start VERIF_MAPROT=0..%d (covers every start bucket and slot of maps up to 8 buckets): byte-identical output trees" % (len(rots), len(rots) - 1))
         sr = Sub("every item regenerated over its own previous output (clean + generate): identical tree, hand-written files untouched")
+        sp = Sub("v2: every item generated once more with the package-root layout (custom typeref files placed below <outdir>/<packageRoot>): the tree below <outdir>/<packageRoot> equals the flat one byte for byte")
         sc_ = Sub("every generated tree compiled in isolation (own package root inside one module): go build")
         sv = Sub("every generated tree including its generated tests: go vet")
+        if gen == "v2":
+            subs[gen + "/package-root-layout"] = sp.d
         subs.update({gen + "/generate": sg.d, gen + "/deterministic": sd.d, gen + "/regenerate": sr.d, gen + "/compile": sc_.d, gen + "/vet": sv.d})
         bydir = {e["Dir"]: e for e in index}
 
@@ -297,9 +324,14 @@ def run_part_a(sc, tier, gens, only=None, t_deadline=None):
             e = res["e"]
             sg.d["states"] += 1
             sg.ev(1)
-            sd.ev(max(0, res["runs"] - 2))
+            sd.ev(max(0, res["runs"] - 2 - (1 if res.get("pkgroot") else 0)))
             sr.ev(1)
             kinds = set(k for k, _ in res["fails"])
+            if res.get("pkgroot"):
+                sp.ev(1)
+                sp.d["states"] += 1
+                sp.cls("differs" if "package-root-layout" in kinds else "same-tree")
+            sd.ev(0)
             for kind, msg in res["fails"]:
                 failures.append({"sig": "%s %s %s :: %s" % (gen, kind, e["ID"], re.sub(r"\d+", "N", msg)[:160]),
                                  "detail": "%s (%s): %s" % (e["ID"], e["Desc"], msg),
